@@ -725,3 +725,116 @@ Section Rec.
     intros h'' A f s. apply (encode_region qp _ _ _ K1 A). exact R1.
   Qed.
 End Rec.
+
+(** ---- clients ------------------------------------------------------------------------------------------ *)
+
+Section Clients.
+  Variable qp : list N -> str.
+  Variable qp_dec : str -> list N.
+
+  (** the holder of a get_data result works in the region of new locations; whatever it does
+      there, every old datum - the stored value, the whole recording - encodes as before *)
+  Theorem get_data_then_client fuel h rec k h' r h'' :
+    heap_wf h ->
+    get_data qp qp_dec fuel h rec k = HOk (h', r) ->
+    client_steps (fun l => length h <= l) h' h'' ->
+    ref_in (fun l => length h <= l) r /\
+    closed_set (fun l => length h <= l) h' /\
+    (forall fuel2 seen x, ref_in (fun l => l < length h) x ->
+       encode_h qp fuel2 h'' seen x = encode_h qp fuel2 h seen x).
+  Proof.
+    intros W G S.
+    destruct (get_data_fresh qp qp_dec _ _ _ _ _ _ W G) as (stored & j & _ & _ & DJ & _ & _ & Fr).
+    destruct (decode_fresh qp_dec _ _ _ _ _ DJ) as (_ & R & C & _).
+    assert (K : closed_set (fun l => length h <= l) h').
+    { intros l nd Hl En. eapply Forall_ref_in_impl; [|apply (C l nd Hl En)]. unfold inr. intros; lia. }
+    split; [eapply ref_in_impl; [|exact R]; unfold inr; intros; lia|]. split; [exact K|].
+    destruct (client_steps_frame _ _ _ K S) as [A _].
+    apply Fr. intros l Hl. apply A. lia.
+  Qed.
+
+  (** the service that received [result] keeps working in its own world, which contains
+      neither the recording nor (it cannot reach them) the locations of the recorded copy *)
+  Theorem copy_on_then_service fuel h rec k result h1 r' h2 h'' :
+    rec < length h ->
+    closed_set (fun l => l <> rec /\ l < length h) h ->
+    pickle_copy qp qp_dec fuel h result = HOk (h1, r') ->
+    record_value qp qp_dec true fuel h rec k result = HOk h2 ->
+    client_steps (fun l => l <> rec /\ ~ inr (length h) (S (length h1)) l) h2 h'' ->
+    forall f s, encode_h qp f h'' s r' = encode_h qp f h2 s r'.
+  Proof.
+    intros Lr Cs PC RV St.
+    destruct (copy_on_interception qp qp_dec _ _ _ _ _ _ _ _ Lr PC RV) as (_ & _ & L1 & L2 & Old & _ & Fr).
+    set (P := fun l => l <> rec /\ ~ inr (length h) (S (length h1)) l) in *.
+    assert (K : closed_set P h2).
+    { intros l nd [N O] En.
+      assert (Ll : l < length h2) by (apply nth_error_Some; congruence).
+      assert (Lt : l < length h) by (unfold inr in O; lia).
+      rewrite Old in En by auto.
+      eapply Forall_ref_in_impl; [|apply (Cs l nd (conj N Lt) En)].
+      intros x [Nx Lx]. split; [exact Nx|]. unfold inr. lia. }
+    destruct (client_steps_frame _ _ _ K St) as [A _].
+    apply Fr. intros l [Lo Hi]. apply A. intros [_ O]. apply O. unfold inr. lia.
+  Qed.
+End Clients.
+
+(** ---- fuel: more fuel never changes an answer ------------------------------------------------------ *)
+
+Lemma thread_list_mono {St A B} (f g : St -> A -> hres (St * B)) :
+  (forall s x r, f s x = HOk r -> g s x = HOk r) ->
+  forall l s r, thread_list f s l = HOk r -> thread_list g s l = HOk r.
+Proof.
+  intros M. induction l as [|x l IH]; intros s r E; cbn in *; [exact E|].
+  destruct (f s x) as [[s1 y]|e] eqn:E1; [|discriminate]. rewrite (M _ _ _ E1).
+  destruct (thread_list f s1 l) as [[s2 ys]|e] eqn:E2; [|discriminate]. rewrite (IH _ _ E2). exact E.
+Qed.
+
+Lemma thread_items_mono {St A B} (f g : St -> A -> hres (St * B)) :
+  (forall s x r, f s x = HOk r -> g s x = HOk r) ->
+  forall d s r, thread_items f s d = HOk r -> thread_items g s d = HOk r.
+Proof.
+  intros M d s r. unfold thread_items. apply thread_list_mono. intros s' kv r'. unfold on_item.
+  destruct (f s' (snd kv)) as [[s1 y]|e] eqn:E1; [|discriminate]. rewrite (M _ _ _ E1). auto.
+Qed.
+
+Section Fuel.
+  Variable qp : list N -> str.
+  Variable qp_dec : str -> list N.
+
+  Lemma encode_fuel_mono : forall f f' h seen r x,
+    f <= f' -> encode_h qp f h seen r = HOk x -> encode_h qp f' h seen r = HOk x.
+  Proof.
+    induction f as [|f IH]; intros f' h seen r x L E; [discriminate|].
+    destruct f' as [|f']; [lia|]. cbn [encode_h] in *.
+    assert (M : forall s c y, encode_h qp f h s c = HOk y -> encode_h qp f' h s c = HOk y).
+    { intros. eapply IH; eauto. lia. }
+    destruct r as [a|l]; [exact E|].
+    destruct (nth_error h l) as [nd|]; [|discriminate].
+    destruct nd as [rs|rs|rs|d|c d].
+    - destruct (index_of l seen); [exact E|].
+      destruct (thread_list (encode_h qp f h) (seen ++ [l]) rs) as [[s2 js]|e] eqn:ET; [|discriminate].
+      rewrite (thread_list_mono _ _ M _ _ _ ET). exact E.
+    - destruct (thread_list (encode_h qp f h) seen rs) as [[s2 js]|e] eqn:ET; [|discriminate].
+      rewrite (thread_list_mono _ _ M _ _ _ ET). exact E.
+    - destruct (thread_list (encode_h qp f h) seen rs) as [[s2 js]|e] eqn:ET; [|discriminate].
+      rewrite (thread_list_mono _ _ M _ _ _ ET). exact E.
+    - destruct (thread_items (encode_h qp f h) seen (pick_items d)) as [[s2 js]|e] eqn:ET; [|discriminate].
+      rewrite (thread_items_mono _ _ M _ _ _ ET). exact E.
+    - destruct (index_of l seen); [exact E|]. destruct d as [|kv d]; [exact E|].
+      destruct (thread_items (encode_h qp f h) (seen ++ [l]) (pick_items (kv :: d))) as [[s2 js]|e] eqn:ET; [|discriminate].
+      rewrite (thread_items_mono _ _ M _ _ _ ET). exact E.
+  Qed.
+End Fuel.
+
+(** ---- a boolean well-formedness check (for concrete examples) ------------------------------------- *)
+
+Definition ref_ltb (n : nat) (r : ref) : bool := match r with RAtom _ => true | RLoc l => l <? n end.
+Definition heap_wfb (h : heap) : bool := forallb (fun nd => forallb (ref_ltb (length h)) (children nd)) h.
+
+Lemma heap_wfb_ok h : heap_wfb h = true -> heap_wf h.
+Proof.
+  unfold heap_wfb. rewrite forallb_forall. intros F l nd _ En.
+  pose proof (F nd (nth_error_In _ _ En)) as G. rewrite forallb_forall in G.
+  apply Forall_forall. intros c I. specialize (G c I). destruct c as [a|x]; cbn in *; [exact Logic.I|].
+  apply Nat.ltb_lt, G.
+Qed.
